@@ -217,6 +217,26 @@ class Ctx:
         self.split_registry.append((j, sep, parts))
         return Sym(j)
 
+    def join_parts(self, sep, parts):
+        """the string  parts[0] sep parts[1] ...  with its structure registered for split(sep[, 1])"""
+        if self.mode != 'sym':
+            return sep.join(str(p) for p in parts)
+        from .core import to_z3
+        exprs = []
+        for i, p in enumerate(parts):
+            if i:
+                exprs.append(z3.StringVal(sep))
+            exprs.append(to_z3(p))
+        j = z3.Concat(*exprs) if len(exprs) > 1 else exprs[0]
+        self.split_registry.append((j, sep, [p if isinstance(p, (Sym, str)) else Sym(p) for p in parts]))
+        return Sym(j)
+
+    def numeral(self, i):
+        """str(i) for a non-negative (symbolic) integer"""
+        if self.mode != 'sym' or isinstance(i, int):
+            return str(i)
+        return Sym(z3.IntToStr(i.e))
+
     def push_scope(self, assumption):
         """temporary assumption (body of a symbolic comprehension); no forks allowed inside"""
         self.solver.push()
